@@ -243,6 +243,58 @@ def api_oracle(res, rng):
     return nv
 
 
+def with_ids(body, prefix):
+    n = [0]
+
+    def f(m):
+        n[0] += 1
+        return "<%s id='%s-%d'%s" % (m.group(1), prefix, n[0], m.group(2))
+    return re.sub(r"<([A-Za-z][\w:-]*)((?:\s[^<>]*)?/?>)", f, body)
+
+
+def history_oracle(res, rng):
+    """routing after the expression changed: the same expression set twice with different author ids (its braille is the
+    same), and a different expression in between; every id that routing returns belongs to the expression that is set now,
+    and navigation can be put on it"""
+    bodies = list(X.FIXED[:8]) + [X.gen(rng, 2) for _ in range(4 if res.tier == "quick" else 40)]
+    sessions, meta = [], []
+    for b in bodies:
+        code = rng.choice(CODES[:5])
+        style = rng.choice(STYLES)
+        ops = [["set_rules_dir", C.RULES], ["set_preference", "BrailleCode", code], ["set_preference", "BrailleNavHighlight", style]]
+        plan = []
+        for prefix, body in (("first", b), ("second", b), ("third", rng.choice(bodies)), ("fourth", b)):
+            ops += [["set_mathml", X.math(with_ids(body, prefix))], ["get_braille", ""]]
+            for p in (0, 1, 2, 3, 5, 8):
+                ops.append(["get_navigation_node_from_braille_position", p])
+            plan.append(prefix)
+        sessions.append({"id": len(sessions), "ops": ops})
+        meta.append((b, code, style, plan))
+    nv = 0
+    for (b, code, style, plan), r in zip(meta, C.run_harness(sessions)):
+        rs = (r.get("res") or [])[3:]
+        if len(rs) != 8 * len(plan):
+            continue
+        for k, prefix in enumerate(plan):
+            blk = rs[8 * k:8 * k + 8]
+            if "ok" not in blk[0]:
+                continue
+            ids = set(re.findall(r"\bid='([^']*)'", blk[0]["ok"]))
+            for p, x in zip((0, 1, 2, 3, 5, 8), blk[2:]):
+                res.add_case(("route-after-change", code, style, b, k, p), nontrivial=k > 0)
+                if "panic" in x:
+                    res.violation("routing panics after the expression changed: %s" % x["panic"], {"kind": "history", "ops": sessions[0]["ops"][:0], "mathml": X.math(b)})
+                    nv += 1
+                elif "ok" in x and x["ok"][0] not in ids:
+                    res.violation("routing from cell %d returns the id %r, which is not an id of the expression that is set now (it was set as the %s of four; braille %s, highlight %s)"
+                                  % (p, x["ok"][0], prefix, code, style),
+                                  {"kind": "history", "code": code, "style": style, "bodies": [with_ids(b, q) for q in plan[:k + 1]], "cell": p, "observed": x["ok"]})
+                    nv += 1
+                if nv >= 3:
+                    return nv
+    return nv
+
+
 def run(res):
     res.rule = ("tie: seeded strings (0-14 chars) of plain / highlighted cells, boundary cells (U+283F, U+28FF, U+2840...) and passed-through "
                 "characters of 1-4 bytes x {Nemeth, UEB, other} x fill, through the nested highlight_braille_chars; oracle: fixed + seeded "
@@ -263,10 +315,12 @@ def run(res):
                 if n >= 3:
                     break
         n += api_oracle(res, rng)
+        n += history_oracle(res, rng)
         return n > 0
     proved = C.check_proofs(res, "C20", ["Props/C20.vo", "Tie/C20Tie.vo"], "Props/C20.v", search=on_broken)
     if proved:
         api_oracle(res, rng)
+        history_oracle(res, rng)
     res.trusted += ["braille rules + clean-up produce the string that highlight_braille_chars receives (oracle)",
                     "the routing search find_navigation_node (termination, probe order) is not modelled: exercised for every cell position"]
     res.assumptions += ["purity of get_braille / get_braille_position / routing is checked on the library (preference dump, navigation id, outputs), not proved"]
@@ -278,6 +332,14 @@ def replay(path):
     if not ok:
         print("harness build failed", log)
         return 2
+    if rep.get("kind") == "history":
+        ops = [["set_preference", "BrailleCode", rep["code"]], ["set_preference", "BrailleNavHighlight", rep["style"]]]
+        for b in rep["bodies"]:
+            ops += [["set_mathml", "<math>%s</math>" % b], ["get_braille", ""], ["get_navigation_node_from_braille_position", rep["cell"]]]
+        r = C.one_session(ops)["res"]
+        print(json.dumps(r[-3:], ensure_ascii=False)[:800])
+        last = r[-1]
+        return 1 if "panic" in last or ("ok" in last and ("id='%s'" % last["ok"][0]) not in r[-3].get("ok", "")) else 0
     if rep.get("kind") == "string":
         x = C.one_session([["v_highlight_chars", rep["input"], rep["code"], rep["fill"]]])["res"][0]
         print(x)
